@@ -18,7 +18,7 @@ tvars == <<st, ev, gh, hist, l, pre, ghPre, drift, driftAt>>
 Trace == ndJsonDeserialize(IOEnv.TRACE_FILE)
 
 FromLog(r) ==
-  [now |-> r.now, seq |-> r.seq, std |-> r.std, params |-> r.params,
+  [now |-> r.now, seq |-> r.seq, std |-> r.std, blocked |-> r.blocked, params |-> r.params,
    pools |-> r.pools, bal |-> r.bal, supply |-> r.supply]
 
 TraceInit ==
@@ -113,7 +113,7 @@ Exercised ==
        [] c = "bound_edge" -> SwapOK(pre, ev) /\ SwapKnown(pre, ev)
                               /\ (IF ev.isBuy THEN SwapPaid(pre, ev, st) = ev.amt
                                               ELSE SwapRecv(pre, ev, st) = ev.amt2)
-       [] c = "blocked_rej" -> ev.name = "Swap" /\ ~ev.ok /\ ev.to \in Blocked
+       [] c = "blocked_rej" -> ev.name = "Swap" /\ ~ev.ok /\ ev.to \in BlockedOf(pre)
        [] c = "wedged" -> ~X01_PoolNotWedged(st)
        [] c = "wedged_add_rej" -> ~X01_AddNeverLockedOut(pre, ev)
        [] c = "wedged_adduni" -> ev.name = "AddUnilateral" /\ ev.ok /\ ev.denom \in DOMAIN pre.pools
@@ -125,8 +125,8 @@ Exercised ==
        [] c = "route_skewed" -> SwapOK(pre, ev) /\ SwapKnown(pre, ev) /\ IsDouble(pre, ev.inDenom, ev.outDenom)
                                 /\ (PoolS(pre, ev.inDenom) >= 4 * PoolS(pre, ev.outDenom)
                                     \/ PoolS(pre, ev.outDenom) >= 4 * PoolS(pre, ev.inDenom))
-       [] c = "to_module" -> SwapOK(pre, ev) /\ ev.to = MOD
-       [] c = "donate_blocked_rej" -> ev.name = "Donate" /\ ~ev.ok /\ ev.to \in Blocked
+       [] c = "to_module" -> ev.name = "Swap" /\ ev.to = MOD   \* accepted or rejected, as the wiring says
+       [] c = "donate_blocked_rej" -> ev.name = "Donate" /\ ~ev.ok /\ ev.to \in BlockedOf(pre)
        [] c = "donate_module" -> ev.name = "Donate" /\ ev.ok /\ ev.to = MOD
        [] c = "mint_zero" -> ev.name \in {"AddLiquidity", "AddUnilateral"} /\ ev.ok /\ ev.minted = 0}
 Coverage == Exercised = {} \/ PrintT(<<"EXERCISED", Exercised>>)
